@@ -244,7 +244,7 @@ class StreamableHTTPTransport(Transport):
                             if not response_text:
                                 logger.debug(f"Empty response body for {message_id}")
                                 # For notifications, this is fine
-                                if not message_id:
+                                if message_id is None:
                                     return
                                 # For requests, send an empty success response
                                 success_response = {
@@ -381,24 +381,32 @@ class StreamableHTTPTransport(Transport):
 
                 if not line:
                     # Empty line marks end of event
-                    if current_event and event_data:
+                    # The event type defaults to "message" (SSE spec)
+                    if event_data:
                         await self._process_sse_event(
-                            current_event, event_data, message_id
+                            current_event or "message", event_data, message_id
                         )
                     current_event = None
                     event_data = []
                     continue
 
-                # Parse SSE format
-                if line.startswith("event: "):
-                    current_event = line[7:].strip()
-                elif line.startswith("data: "):
-                    data = line[6:]  # Keep formatting
-                    event_data.append(data)
+                # Parse SSE format: "field: value", the space after the colon is
+                # optional, a leading colon marks a comment
+                if line.startswith(":"):
+                    continue
+                field, _, value = line.partition(":")
+                if value.startswith(" "):
+                    value = value[1:]
+                if field == "event":
+                    current_event = value.strip()
+                elif field == "data":
+                    event_data.append(value)  # Keep formatting
 
             # Process any remaining event
-            if current_event and event_data:
-                await self._process_sse_event(current_event, event_data, message_id)
+            if event_data:
+                await self._process_sse_event(
+                    current_event or "message", event_data, message_id
+                )
 
         except Exception as e:
             logger.error(f"Error processing SSE text: {e}")
@@ -415,7 +423,7 @@ class StreamableHTTPTransport(Transport):
 
             # Handle message events (the actual response)
             if event_type in ["message", "response", None]:
-                if full_data.strip().startswith("{"):
+                if full_data.strip().startswith(("{", "[")):
                     try:
                         response_data = json.loads(full_data.strip())
                         await self._route_response(response_data)
@@ -429,6 +437,12 @@ class StreamableHTTPTransport(Transport):
         """Route response to the appropriate handler."""
         try:
             from chuk_mcp.protocol.messages.json_rpc_message import JSONRPCMessage
+
+            # A batch array: route every member in order
+            if isinstance(response_data, list):
+                for item in response_data:
+                    await self._route_response(item)
+                return
 
             # Create JSON-RPC message
             message = JSONRPCMessage.model_validate(response_data)  # type: ignore[attr-defined]
